@@ -8,6 +8,9 @@
 //! pending message or, within a fault budget, an earlier message of either direction, the pending
 //! payload under another variant tag, or a corrupted/truncated/extended/empty message.
 use prio::codec::{CodecError, Decode, Encode, ParameterizedDecode};
+use prio::field::Field64;
+use prio::flp::gadgets::{Mul, ParallelSum};
+use prio::flp::types::SumVec;
 use prio::idpf::IdpfInput;
 use prio::topology::ping_pong::{PingPongContinuation, PingPongMessage, PingPongState, PingPongTopology};
 use prio::vdaf::poplar1::{Poplar1, Poplar1AggregationParam};
@@ -737,23 +740,42 @@ fn main() {
     let q = run.quick();
     let budget = if q { 2 } else { 3 };
     let tape = Tape::Seeded(run.seed ^ 0xC12);
-    // (i) strict instrumented VDAF, 1..4 rounds
-    for rounds in 1..=4u8 {
+    // (i) strict instrumented VDAF, 1..6 rounds
+    for rounds in 1..=6u8 {
         let subj = Subject { name: format!("Strict(rounds={rounds})"), vdaf: Strict { rounds }, vk: [7u8; 32], ctx: b"c12".to_vec(), param: SParam { p: 9 }, nonce: [1u8; 16], ps: (), shares: vec![SInput { agg_id: 0, value: 11 }, SInput { agg_id: 1, value: 22 }], rounds: rounds as usize, strict: true, strict_content: true, budget: if q { 2 } else { 3 }, corrupt_all_bytes: true, not_judged: Default::default() };
         check(&run, subj);
     }
-    // (ii) Prio3Count, Prio3Histogram (joint randomness)
-    {
-        let vdaf = Prio3::new_count(2).unwrap();
+    // (ii) Prio3: Count, Sum, Histogram / SumVec (joint randomness), multi-proof SumVec over Field64
+    let ntapes = if q { 1 } else { 3 };
+    for t in 0..ntapes {
+        let tape = Tape::Seeded(run.seed ^ 0xC12 ^ (t as u64 * 0x9E37));
+        let sfx = if t == 0 { String::new() } else { format!("#{t}") };
         let nonce: [u8; 16] = tape.array(1);
-        let (ps, shares) = vdaf.shard_with_random(b"c12", &true, &nonce, &tape.bytes(2, 64)).unwrap();
-        check(&run, Subject { name: "Prio3Count".into(), vdaf, vk: tape.array(3), ctx: b"c12".to_vec(), param: (), nonce, ps, shares, rounds: 1, strict: true, strict_content: false, budget, corrupt_all_bytes: !q, not_judged: Default::default() });
+        let vdaf = Prio3::new_count(2).unwrap();
+        for m in [true, false] {
+            let (ps, shares) = vdaf.shard_with_random(b"c12", &m, &nonce, &tape.bytes(2, 64)).unwrap();
+            check(&run, Subject { name: format!("Prio3Count({m}){sfx}"), vdaf: vdaf.clone(), vk: tape.array(3), ctx: b"c12".to_vec(), param: (), nonce, ps, shares, rounds: 1, strict: true, strict_content: false, budget, corrupt_all_bytes: true, not_judged: Default::default() });
+        }
+        let vdaf = Prio3::new_sum(2, 1000).unwrap();
+        let (ps, shares) = vdaf.shard_with_random(b"c12", &777u64, &nonce, &tape.bytes(6, 64)).unwrap();
+        check(&run, Subject { name: format!("Prio3Sum{sfx}"), vdaf, vk: tape.array(7), ctx: b"c12".to_vec(), param: (), nonce, ps, shares, rounds: 1, strict: true, strict_content: false, budget, corrupt_all_bytes: !q, not_judged: Default::default() });
         let vdaf = Prio3::new_histogram(2, 4, 2).unwrap();
         let (ps, shares) = vdaf.shard_with_random(b"c12", &2usize, &nonce, &tape.bytes(4, 128)).unwrap();
-        check(&run, Subject { name: "Prio3Histogram".into(), vdaf, vk: tape.array(5), ctx: b"c12".to_vec(), param: (), nonce, ps, shares, rounds: 1, strict: true, strict_content: false, budget, corrupt_all_bytes: !q, not_judged: Default::default() });
+        check(&run, Subject { name: format!("Prio3Histogram{sfx}"), vdaf, vk: tape.array(5), ctx: b"c12".to_vec(), param: (), nonce, ps, shares, rounds: 1, strict: true, strict_content: false, budget, corrupt_all_bytes: true, not_judged: Default::default() });
+        let vdaf = Prio3::new_sum_vec(2, 2, 3, 2).unwrap();
+        let (ps, shares) = vdaf.shard_with_random(b"c12", &vec![1u128, 2, 0], &nonce, &tape.bytes(8, 128)).unwrap();
+        check(&run, Subject { name: format!("Prio3SumVec{sfx}"), vdaf, vk: tape.array(9), ctx: b"c12".to_vec(), param: (), nonce, ps, shares, rounds: 1, strict: true, strict_content: false, budget, corrupt_all_bytes: !q, not_judged: Default::default() });
+        let typ: SumVec<Field64, ParallelSum<Field64, Mul>> = SumVec::new(1, 4, 2).unwrap();
+        let vdaf: Prio3<_, XofTurboShake128, 32> = Prio3::new(2, 3, 0xFFFF_1203, typ).unwrap();
+        let (ps, shares) = vdaf.shard_with_random(b"c12", &vec![1u64, 0, 1, 1], &nonce, &tape.bytes(10, 128)).unwrap();
+        check(&run, Subject { name: format!("Prio3SumVecField64(proofs=3){sfx}"), vdaf, vk: tape.array(14), ctx: b"c12".to_vec(), param: (), nonce, ps, shares, rounds: 1, strict: true, strict_content: false, budget, corrupt_all_bytes: !q, not_judged: Default::default() });
     }
-    // (iii) Poplar1, inner and leaf level (2 rounds)
-    for (bits, level) in [(3usize, 1usize), (3, 2), (1, 0)] {
+    // (iii) Poplar1, every level of bits 1..3 and selected levels of longer inputs (2 rounds)
+    let mut pl: Vec<(usize, usize)> = vec![(1, 0), (2, 0), (2, 1), (3, 0), (3, 1), (3, 2), (9, 7), (9, 8)];
+    if !q {
+        pl.extend([(64, 0), (64, 31), (64, 63), (257, 255), (257, 256)]);
+    }
+    for (bits, level) in pl {
         let vdaf: Poplar1<XofTurboShake128, 32> = Poplar1::new(bits);
         let input: Vec<bool> = (0..bits).map(|i| i % 2 == 0).collect();
         let nonce: [u8; 16] = tape.array(11);
@@ -765,10 +787,10 @@ fn main() {
             std::mem::swap(&mut on, &mut sib);
         }
         let param = Poplar1AggregationParam::try_from_prefixes(vec![IdpfInput::from_bools(&on), IdpfInput::from_bools(&sib)]).unwrap();
-        check(&run, Subject { name: format!("Poplar1(bits={bits},level={level})"), vdaf, vk: tape.array(13), ctx: b"c12".to_vec(), param, nonce, ps, shares, rounds: 2, strict: true, strict_content: false, budget, corrupt_all_bytes: !q, not_judged: Default::default() });
+        check(&run, Subject { name: format!("Poplar1(bits={bits},level={level})"), vdaf, vk: tape.array(13), ctx: b"c12".to_vec(), param, nonce, ps, shares, rounds: 2, strict: true, strict_content: false, budget, corrupt_all_bytes: bits <= 3 || !q, not_judged: Default::default() });
     }
-    // (iv) the crate's dummy VDAF, 1..3 rounds
-    for rounds in 1..=3u32 {
+    // (iv) the crate's dummy VDAF, 1..5 rounds
+    for rounds in 1..=5u32 {
         let vdaf = prio::vdaf::dummy::Vdaf::new(rounds);
         check(&run, Subject { name: format!("Dummy(rounds={rounds})"), vdaf, vk: [], ctx: b"c12".to_vec(), param: prio::vdaf::dummy::AggregationParam(3), nonce: [0u8; 16], ps: (), shares: vec![prio::vdaf::dummy::InputShare(5), prio::vdaf::dummy::InputShare(9)], rounds: rounds as usize, strict: false, strict_content: true, budget, corrupt_all_bytes: false, not_judged: Default::default() });
     }
